@@ -121,7 +121,7 @@ def n2_product(ctx) -> None:
         ctx.violation("N2", c.node, f"params_value_pairs_combinations must be product(*(getter(size).items() for getter, size in zip({getters}, {sizes}))): provider i at size i",
                       construct="CartesianProduct.params_value_pairs_combinations")
     for name, maps in (("_new_param", "self._children_param_maps"),):
-        np_ = P.need_method("CartesianProduct", name, own=True)
+        np_ = P.need_method("CartesianProduct", name)
         ctx.analysed(np_)
         a = np_.node.args.vararg.arg if np_.node.args.vararg else None
         rets = [r for r in C.returns_of(np_.node) if r.value is not None]
